@@ -1340,6 +1340,21 @@ func (x *Exec) execLoopUncached(fr *Frame, li *loopInfo, pred *ssa.BasicBlock, s
 		x.NRounds++
 		if os.Getenv("RSA_DEBUG") != "" {
 			fmt.Fprintf(os.Stderr, "loop %s#b%d round %d headkey %d bytes\n", funcKey(fr.fn), li.header.Index, round, len(head.key()))
+			if os.Getenv("RSA_DEBUG_LOOP") == funcKey(fr.fn) {
+				var ks []string
+				for k, c := range head.mem {
+					if c.val != nil {
+						ks = append(ks, "   mem "+k+" = "+c.val.String())
+					}
+				}
+				sort.Strings(ks)
+				for _, k := range ks {
+					fmt.Fprintln(os.Stderr, k)
+				}
+				for _, k := range sortedFactKeys(head) {
+					fmt.Fprintf(os.Stderr, "   fact %s = %v\n", head.fterm[k], head.facts[k])
+				}
+			}
 			if os.Getenv("RSA_DEBUG") == "2" && round <= 3 {
 				fmt.Fprintf(os.Stderr, "%s\n", strings.ReplaceAll(strings.ReplaceAll(head.key(), ";", "\n  "), "|", "\n|"))
 			}
@@ -1664,6 +1679,13 @@ func joinVals(a, b *Term, where string) *Term {
 	}
 	if b.Op == "top" && b.Aux == where {
 		return b
+	}
+	// a value computed from the widened value of the same cell (top - 1) is
+	// covered by it: without this the iteration entry ⊔ post(head) oscillates
+	// between the widened value and small alternative sets
+	wt := mk("top", where, a.Typ)
+	if a.Op != "list" && b.Op != "list" && (a.contains(wt) || b.contains(wt)) {
+		return wt
 	}
 	la := a.Op == "list" || a.isNilConst()
 	lb := b.Op == "list" || b.isNilConst()
